@@ -73,6 +73,9 @@ def _random_solution(g, rng, ncopies, base=None):
             missing.append(rng.choice(neutral))
         elif neutral and r < 0.4:
             missing = list(neutral)
+        core = sorted(g.alleles[ma].func_muts)
+        if core and rng.random() < 0.15:
+            missing.append(rng.choice(core))  # hand-made solutions may also lose a defining variant
         alleles.append(SolvedAllele(g, ma, mi, added, missing))
     cn = CNSolution(g, 0, [g.alleles[a.major].cn_config for a in alleles])
     major = MajorSolution(0, collections.Counter(SolvedAllele(g, a.major) for a in alleles), cn, [])
@@ -254,6 +257,26 @@ def _writers_case(res, rng, ident):
         from ..gen import dbgen
 
         g = dbgen.random_gene(rng, genome=genome)
+        if rng.random() < 0.35:
+            # first write files for a twin database: same coordinates and changes, other effect / dbSNP
+            # annotations - nothing of it may leak into the files of this database
+            import copy
+
+            twin = copy.deepcopy(g._gen_spec)
+            for a in twin["yml"]["alleles"].values():
+                muts = a if isinstance(a, list) else a.get("mutations", [])
+                for m in muts:
+                    if isinstance(m[0], int):
+                        while len(m) < 4:
+                            m.append("-" if len(m) == 2 else "twin_effect")
+                        m[2] = "rs9" + str(m[0])
+                        m[3] = "twin_" + str(m[3])
+            gt = dbgen.load(twin, genome)
+            tsol = _random_solution(gt, rng, 2)
+            tcov = tables.make_coverage(gt, {})
+            tb = io.StringIO()
+            write_decomposition("smp", gt, tcov, 1, tsol, tb)
+            write_vcf("smp", gt, tcov, [tsol], tb)
     else:
         g = tables.gene(gname, genome)
     nsol = rng.choice([1, 1, 2, 2, 3, 4])
